@@ -115,7 +115,7 @@ theorem supermask_step_aux : ∀ (s x : Nat), x &&& s = x →
       rw [e1, or_eq_of_and_eq hxs'.1] at ht2
       rw [e2] at ht1
       have : ((s + 1) ||| x) % 2 = 1 := by
-        rcases hx01 with hx | hx <;> simp [hx] at ht1 <;> omega
+        rcases hx01 with hx | hx <;> rw [hx] at ht1 <;> omega
       omega
     · -- s odd: carry into the upper bits
       have e1 : (s + 1) / 2 = s / 2 + 1 := by omega
@@ -179,12 +179,46 @@ theorem isSubmask_iff (s x : Nat) : isSubmask s x = true ↔ s &&& x = s := by
 theorem filter_range_skip (p : Nat → Bool) (a b : Nat) (hab : a ≤ b)
     (hnone : ∀ u, a ≤ u → u < b → p u = false) :
     (List.range b).reverse.filter p = (List.range a).reverse.filter p := by
-  induction b, hab using Nat.le_induction with
-  | base => rfl
-  | succ b hab ih =>
+  induction hab with
+  | refl => rfl
+  | @step b hab ih =>
     rw [List.range_succ, List.reverse_append, List.reverse_singleton, List.singleton_append,
       List.filter_cons_of_neg (by rw [hnone b hab (by omega)]; simp)]
     exact ih (fun u h1 h2 => hnone u h1 (by omega))
+
+theorem submasksFrom_eq (w s x : Nat) : submasksFrom w s x =
+    if s = 0 then [] else s :: submasksFrom w (wrappingSub1 w s &&& x) x := by
+  rw [submasksFrom]
+  split
+  · rename_i h
+    unfold nextSubmask at h
+    split at h
+    · rename_i hs; rw [if_pos hs]
+    · cases h
+  · rename_i cur s' h
+    unfold nextSubmask at h
+    split at h
+    · cases h
+    · rename_i hs
+      simp only [Option.some.injEq, Prod.mk.injEq] at h
+      rw [if_neg hs, ← h.1, ← h.2]
+
+theorem supermasksFrom_eq (w s x : Nat) : supermasksFrom w s x =
+    if countZeros w s = 0 then [] else s :: supermasksFrom w (wrappingAdd1 w s ||| x) x := by
+  rw [supermasksFrom]
+  split
+  · rename_i h
+    unfold nextSupermask at h
+    split at h
+    · rename_i hs; rw [if_pos hs]
+    · cases h
+  · rename_i cur s' h
+    unfold nextSupermask at h
+    split at h
+    · cases h
+    · rename_i hs
+      simp only [Option.some.injEq, Prod.mk.injEq] at h
+      rw [if_neg hs, ← h.1, ← h.2]
 
 theorem submasksFrom_spec (w x : Nat) : ∀ s, s < 2 ^ w → s &&& x = s →
     submasksFrom w s x ++ [0] = (List.range (s + 1)).reverse.filter (fun u => isSubmask u x) := by
@@ -194,18 +228,19 @@ theorem submasksFrom_spec (w x : Nat) : ∀ s, s < 2 ^ w → s &&& x = s →
     intro hsw hsx
     by_cases hs : s = 0
     · subst hs
-      rw [submasksFrom]
-      simp [nextSubmask, isSubmask]
+      rw [submasksFrom_eq]
+      simp [isSubmask]
     · have hstep : wrappingSub1 w s &&& x = (s - 1) &&& x := by
         unfold wrappingSub1; rw [if_neg hs, Nat.mod_eq_of_lt (by omega)]
       have hle : (s - 1) &&& x ≤ s - 1 := Nat.and_le_left
       have e : submasksFrom w s x = s :: submasksFrom w ((s - 1) &&& x) x := by
-        rw [submasksFrom]
-        simp only [nextSubmask, if_neg hs, hstep]
+        rw [submasksFrom_eq, if_neg hs, hstep]
+      have hR : (List.range (s + 1)).reverse.filter (fun u => isSubmask u x)
+          = s :: (List.range s).reverse.filter (fun u => isSubmask u x) := by
+        rw [List.range_succ, List.reverse_append, List.reverse_singleton, List.singleton_append,
+          List.filter_cons_of_pos (p := fun u => isSubmask u x) ((isSubmask_iff s x).mpr hsx)]
       rw [e, List.cons_append,
-        ih ((s - 1) &&& x) (by omega) (by omega) (by rw [Nat.and_assoc, Nat.and_self]),
-        List.range_succ, List.reverse_append, List.reverse_singleton, List.singleton_append,
-        List.filter_cons_of_pos ((isSubmask_iff s x).mpr hsx)]
+        ih ((s - 1) &&& x) (by omega) (by omega) (by rw [Nat.and_assoc, Nat.and_self]), hR]
       congr 1
       symm
       apply filter_range_skip _ _ _ (by omega)
@@ -221,9 +256,9 @@ theorem submasksFrom_spec (w x : Nat) : ∀ s, s < 2 ^ w → s &&& x = s →
 theorem filter_range'_skip (p : Nat → Bool) (c a b : Nat) (hab : a ≤ b) (hbc : b ≤ c)
     (hnone : ∀ u, a ≤ u → u < b → p u = false) :
     (List.range' a (c - a)).filter p = (List.range' b (c - b)).filter p := by
-  induction b, hab using Nat.le_induction with
-  | base => rfl
-  | succ b hab ih =>
+  induction hab with
+  | refl => rfl
+  | @step b hab ih =>
     rw [ih (by omega) (fun u h1 h2 => hnone u h1 (by omega))]
     have : c - b = (c - (b + 1)) + 1 := by omega
     rw [this, List.range'_succ, List.filter_cons_of_neg (by rw [hnone b hab (by omega)]; simp)]
@@ -238,28 +273,29 @@ theorem supermasksFrom_spec (w x : Nat) (hx : x < 2 ^ w) : ∀ k s, ones w - s =
   | _ k ih =>
     intro s hk hsw hxs
     have hpos : 0 < 2 ^ w := Nat.two_pow_pos w
-    by_cases hs : ones w ≤ s
-    · have hs' : s = ones w := by unfold ones at hs ⊢; omega
-      rw [supermasksFrom]
-      simp only [nextSupermask, if_pos hs]
+    have hcz : countZeros w s = 0 ↔ s = ones w := by
+      rw [countZeros_eq_zero_iff, Nat.mod_eq_of_lt hsw]
+    by_cases hs' : s = ones w
+    · have hs := hcz.mpr hs'
+      rw [supermasksFrom_eq, if_pos hs]
       have : 2 ^ w - s = 1 := by rw [hs']; unfold ones; omega
       rw [this]
       simp only [List.range'_one, List.nil_append]
       rw [List.filter_cons_of_pos (by rw [hs']; exact (isSubmask_iff _ _).mpr (submask_ones hx))]
       simp [hs']
-    · have hs1 : s + 1 < 2 ^ w := by unfold ones at hs; omega
+    · have hs : ¬ countZeros w s = 0 := fun h => hs' (hcz.mp h)
+      have hs1 : s + 1 < 2 ^ w := by unfold ones at hs'; omega
       have hstep : wrappingAdd1 w s ||| x = (s + 1) ||| x := by
         unfold wrappingAdd1; rw [Nat.mod_eq_of_lt hs1]
       have hge : s + 1 ≤ (s + 1) ||| x := Nat.left_le_or
       have hlt : (s + 1) ||| x < 2 ^ w := Nat.or_lt_two_pow hs1 hx
       have e : supermasksFrom w s x = s :: supermasksFrom w ((s + 1) ||| x) x := by
-        rw [supermasksFrom]
-        simp only [nextSupermask, if_neg hs, hstep]
+        rw [supermasksFrom_eq, if_neg hs, hstep]
       rw [e, List.cons_append,
         ih (ones w - ((s + 1) ||| x)) (by unfold ones at hk ⊢; omega) ((s + 1) ||| x) rfl hlt
           (and_or_self_right x (s + 1))]
       have : 2 ^ w - s = (2 ^ w - (s + 1)) + 1 := by omega
-      rw [this, List.range'_succ, List.filter_cons_of_pos ((isSubmask_iff x s).mpr hxs)]
+      rw [this, List.range'_succ, List.filter_cons_of_pos (p := fun u => isSubmask x u) ((isSubmask_iff x s).mpr hxs)]
       congr 1
       symm
       apply filter_range'_skip _ _ _ _ hge (by omega)
@@ -269,5 +305,137 @@ theorem supermasksFrom_spec (w x : Nat) (hx : x < 2 ^ w) : ∀ k s, ones w - s =
       | true =>
         have := supermask_step_aux s x hxs u ((isSubmask_iff x u).mp hu) (by omega)
         omega
+
+/-! ### the bit-by-bit enumerations `subsAsc`, `supsAsc` -/
+
+theorem subsAsc_eq (x : Nat) : subsAsc x =
+    if x = 0 then [0]
+    else if x % 2 = 1 then (subsAsc (x / 2)).flatMap (fun s => [2 * s, 2 * s + 1])
+    else (subsAsc (x / 2)).map (fun s => 2 * s) := by
+  rw [subsAsc]
+  split <;> rfl
+
+theorem subsAsc_mem : ∀ x a, a ∈ subsAsc x ↔ a &&& x = a := by
+  intro x
+  induction x using Nat.strongRecOn with
+  | _ x ih =>
+    intro a
+    rw [subsAsc_eq]
+    by_cases hx : x = 0
+    · subst hx; simp [eq_comm]
+    · rw [if_neg hx, and_eq_iff a x]
+      have iha := ih (x / 2) (by omega) (a / 2)
+      have ha01 : a % 2 = 0 ∨ a % 2 = 1 := by omega
+      by_cases h1 : x % 2 = 1
+      · rw [if_pos h1, h1, Nat.mul_one, List.mem_flatMap]
+        constructor
+        · rintro ⟨s, hs, ha⟩
+          have : a / 2 = s := by
+            simp only [List.mem_cons, List.not_mem_nil, or_false] at ha
+            omega
+          rw [this]
+          exact ⟨(ih (x / 2) (by omega) s).mp hs, rfl⟩
+        · rintro ⟨h, _⟩
+          refine ⟨a / 2, iha.mpr h, ?_⟩
+          simp only [List.mem_cons, List.not_mem_nil, or_false]
+          omega
+      · have h0 : x % 2 = 0 := by omega
+        rw [if_neg h1, h0, Nat.mul_zero, List.mem_map]
+        constructor
+        · rintro ⟨s, hs, ha⟩
+          have : a / 2 = s := by omega
+          rw [this]
+          exact ⟨(ih (x / 2) (by omega) s).mp hs, by omega⟩
+        · rintro ⟨h, h'⟩
+          exact ⟨a / 2, iha.mpr h, by omega⟩
+
+theorem pairwise_double {r : List Nat} (h : r.Pairwise (· < ·)) :
+    (r.flatMap (fun s => [2 * s, 2 * s + 1])).Pairwise (· < ·) := by
+  rw [List.pairwise_flatMap]
+  refine ⟨fun a _ => by simp, h.imp ?_⟩
+  intro a b hab u hu v hv
+  simp only [List.mem_cons, List.not_mem_nil, or_false] at hu hv
+  omega
+
+theorem subsAsc_sorted : ∀ x, (subsAsc x).Pairwise (· < ·) := by
+  intro x
+  induction x using Nat.strongRecOn with
+  | _ x ih =>
+    rw [subsAsc_eq]
+    by_cases hx : x = 0
+    · rw [if_pos hx]; simp
+    · rw [if_neg hx]
+      have := ih (x / 2) (by omega)
+      split
+      · exact pairwise_double this
+      · exact this.map _ (fun a b h => by omega)
+
+/-- The fast enumeration is the by-definition one (ascending). -/
+theorem subsAsc_spec (x : Nat) : subsAsc x = (List.range (x + 1)).filter (fun s => isSubmask s x) := by
+  apply sorted_ext _ _ (subsAsc_sorted x) (List.pairwise_lt_range.filter _)
+  intro a
+  rw [subsAsc_mem, List.mem_filter, List.mem_range, isSubmask_iff]
+  constructor
+  · intro h
+    have : a &&& x ≤ x := Nat.and_le_right
+    exact ⟨by omega, h⟩
+  · exact fun h => h.2
+
+theorem supsAsc_mem : ∀ w x a, x < 2 ^ w → (a ∈ supsAsc w x ↔ a < 2 ^ w ∧ x &&& a = x) := by
+  intro w
+  induction w with
+  | zero =>
+    intro x a hx
+    have : x = 0 := by omega
+    subst this
+    simp [supsAsc]
+  | succ w ih =>
+    intro x a hx
+    have hx2 : x / 2 < 2 ^ w := by rw [Nat.pow_succ] at hx; omega
+    have iha := ih (x / 2) (a / 2) hx2
+    have hpow : 2 ^ (w + 1) = 2 * 2 ^ w := by rw [Nat.pow_succ]; omega
+    rw [and_eq_iff x a, hpow]
+    simp only [supsAsc]
+    by_cases h1 : x % 2 = 1
+    · rw [if_pos h1, h1, Nat.one_mul, List.mem_map]
+      constructor
+      · rintro ⟨s, hs, ha⟩
+        have e : a / 2 = s := by omega
+        have := (ih (x / 2) s hx2).mp hs
+        rw [e]
+        exact ⟨by omega, this.2, by omega⟩
+      · rintro ⟨h, h', h''⟩
+        exact ⟨a / 2, iha.mpr ⟨by omega, h'⟩, by omega⟩
+    · have h0 : x % 2 = 0 := by omega
+      rw [if_neg h1, h0, Nat.zero_mul, List.mem_flatMap]
+      constructor
+      · rintro ⟨s, hs, ha⟩
+        have e : a / 2 = s := by
+          simp only [List.mem_cons, List.not_mem_nil, or_false] at ha
+          omega
+        have := (ih (x / 2) s hx2).mp hs
+        rw [e]
+        exact ⟨by omega, this.2, rfl⟩
+      · rintro ⟨h, h', _⟩
+        refine ⟨a / 2, iha.mpr ⟨by omega, h'⟩, ?_⟩
+        simp only [List.mem_cons, List.not_mem_nil, or_false]
+        omega
+
+theorem supsAsc_sorted : ∀ w x, (supsAsc w x).Pairwise (· < ·) := by
+  intro w
+  induction w with
+  | zero => intro x; simp [supsAsc]
+  | succ w ih =>
+    intro x
+    simp only [supsAsc]
+    split
+    · exact (ih (x / 2)).map _ (fun a b h => by omega)
+    · exact pairwise_double (ih (x / 2))
+
+/-- The fast enumeration is the by-definition one. -/
+theorem supsAsc_spec (w x : Nat) (hx : x < 2 ^ w) : supsAsc w x = specSupermasks w x := by
+  apply sorted_ext _ _ (supsAsc_sorted w x) (List.pairwise_lt_range.filter _)
+  intro a
+  rw [supsAsc_mem w x a hx, List.mem_filter, List.mem_range, isSubmask_iff]
 
 end Rlib.Iter
